@@ -2,11 +2,12 @@
   C05 — Hierarchical index: tree and table views agree; per-level selection is exact.
 
   Property theorems only (helper lemmas: LevelLemmas, LevelViewLemmas, LevelCacheLemmas,
-  LevelHLocLemmas).  The model (`Level.iter`, `valuesAtDepth`, `toTypeBlocks`, `contains`,
+  LevelHLocLemmas, LevelSliceLemmas).  The model (`Level.iter`, `valuesAtDepth`, `toTypeBlocks`, `contains`,
   `locToIloc`, `HState.step`) mirrors the deque loops and the `_recache` protocol of the code.
 -/
 import SFModel.LevelCacheLemmas
 import SFModel.LevelHLocLemmas
+import SFModel.LevelSliceLemmas
 set_option linter.unusedSectionVars false
 
 namespace SF.C05
@@ -91,6 +92,73 @@ theorem hloc_exact_partial {t : Level α} {d : Nat} (h : Level.WF d t) (ho : t.o
     (∀ p, p ∈ Level.specPos key t 0 0 ↔ ∃ tup, t.tuples[p]? = some tup ∧ Level.matchFrom key 0 tup = true) :=
   ⟨Level.locToIloc_simple_result h ho key hk.1 hk.2, Level.specPos_mem_iff h key hk.1⟩
 
+/-! ### per-level selection with label slices -/
+
+/-- The key consists of label / all / list selectors and LABEL SLICES whose step is `None` or `1`
+    (missing trailing depths count as `all`), and no list selector repeats a label. -/
+def SliceKey (key : List (Sel α)) : Prop :=
+  (∀ dep, (key.getD dep .all).simpleS = true) ∧ (∀ dep as, key.getD dep .all = .list as → as.Nodup)
+
+/-- Selectors label / all / list / label slice `a:b`, `a:`, `:b`, `:` with step `None` or `1`, any
+    mix, any depth (extends `hloc_exact_partial`, which stays as it is).
+
+    A slice is resolved by every visited node against its own label order, so the specification
+    is node-aware (definitions in `LevelSliceLemmas`):
+      * `Sel.matchesIn ls a sel`: in a node with labels `ls` a slice selects the label `a` iff the
+        POSITION of `a` among `ls` lies between the positions of the endpoints, both inclusive (an
+        open endpoint does not constrain); label / all / list select by value as before;
+      * `Level.matchIn key t 0 tup`: every component of the tuple is selected by the selector of its
+        depth in the node the component lives in (the node reached through the components before it);
+      * `Level.clean key t 0`: no VISITED node lacks a slice endpoint of its depth's selector — the
+        root is visited, and so is every target below a selected label of a visited node;
+      * `Level.specPosS`: the depth-first enumeration in which every node visits its selected targets
+        in selector order (index order for label / `:` / slice, the order of the list for a list).
+
+    For a well-formed tree:
+     (1) when no visited node lacks an endpoint, `loc_to_iloc(HLoc[key])` either raises KeyError
+         because nothing matches, or returns an iloc key addressing exactly `specPosS`;
+     (2) a position is in `specPosS` iff its tuple matches every per-depth selector (`matchIn`);
+     (3) without list selectors `specPosS` IS the list of matching positions in index order;
+     (4) when some visited node lacks an endpoint the call raises (LocInvalid from that node, which
+         is not caught): the answer is never data.
+    The Boolean mask and slices with another step are compared with the code and the
+    list-of-tuples reference only. -/
+theorem hloc_exact_slices {t : Level α} {d : Nat} (h : Level.WF d t) (ho : t.offset = 0)
+    (key : List (Sel α)) (hk : SliceKey key) :
+    (Level.clean key t 0 = true →
+      (t.locToIloc key = .error .lookup ∧ Level.specPosS key t 0 0 = []) ∨
+        ∃ r, t.locToIloc key = .ok r ∧ r.positions t.len = .ok (Level.specPosS key t 0 0)) ∧
+    (∀ p, p ∈ Level.specPosS key t 0 0 ↔
+      ∃ tup, t.tuples[p]? = some tup ∧ Level.matchIn key t 0 tup = true) ∧
+    ((∀ dep as, key.getD dep .all ≠ .list as) → Level.specPosS key t 0 0 = Level.matchPositions key t) ∧
+    (Level.clean key t 0 ≠ true → t.locToIloc key = .error .lookup) :=
+  ⟨Level.locToIloc_slices_result h ho key hk.1 hk.2, Level.specPosS_mem_iff h key hk.1,
+    Level.specPosS_eq_matchPositions h key hk.1, Level.locToIloc_slices_lookup h ho key hk.1 hk.2⟩
+
+/-- The same read from the answer: whenever `loc_to_iloc(HLoc[key])` returns data, no visited node
+    lacked a slice endpoint and the iloc key addresses exactly the positions whose tuple matches every
+    per-depth selector (node-aware for slices) — in index order when the key has no list selector. -/
+theorem hloc_slices_answer {t : Level α} {d : Nat} (h : Level.WF d t) (ho : t.offset = 0)
+    (key : List (Sel α)) (hk : SliceKey key) {r : IKey} (hr : t.locToIloc key = .ok r) :
+    Level.clean key t 0 = true ∧
+    ∃ ps, r.positions t.len = .ok ps ∧
+      (∀ p, p ∈ ps ↔ ∃ tup, t.tuples[p]? = some tup ∧ Level.matchIn key t 0 tup = true) ∧
+      ((∀ dep as, key.getD dep .all ≠ .list as) → ps = Level.matchPositions key t) := by
+  obtain ⟨h1, h2, h3, h4⟩ := hloc_exact_slices h ho key hk
+  have hc : Level.clean key t 0 = true := by
+    by_cases hc : Level.clean key t 0 = true
+    · exact hc
+    · rw [h4 hc] at hr; cases hr
+  refine ⟨hc, Level.specPosS key t 0 0, ?_, h2, h3⟩
+  rcases h1 hc with ⟨he, _⟩ | ⟨r', hr', hp⟩
+  · rw [he] at hr; cases hr
+  · rw [hr'] at hr; cases hr; exact hp
+
+/-- Keys without slice endpoints (label / all / list, fully open slices) are always clean. -/
+theorem clean_of_no_endpoints (key : List (Sel α))
+    (hp : ∀ dep ls, (key.getD dep .all).present ls = true) (t : Level α) : Level.clean key t 0 = true :=
+  Level.clean_of_present key hp t 0
+
 /-- A full tuple of labels selects its single position, returned as an integer; a tuple that is
     not held is a KeyError. -/
 theorem hloc_full_tuple {t : Level α} {d : Nat} (h : Level.WF d t) (ho : t.offset = 0) (labs : List α)
@@ -139,5 +207,56 @@ example : SimpleKey ([.list [6, 5], .label 1] : List (Sel Int)) := by
     | 0, h => cases h; decide
     | 1, h => cases h
     | n + 2, h => cases h
+
+/-! #### label slices (`hloc_exact_slices`): a depth-3 hierarchy whose nodes order their labels
+    differently.  `HLoc[:, 5:6, 2:3]`: under outer label 10 the node `[5, 6]` selects both targets
+    and the leaf `[2, 9, 3]` selects 2, 9 and 3 (by position, not by value); under outer label 20 the
+    node `[6, 5]` selects nothing (5 comes after 6 there). -/
+
+def exTree : Level Int :=
+  .node [10, 20]
+    [.node [5, 6] [.leaf [1, 2, 3] 0, .leaf [2, 9, 3] 3] 0,
+     .node [6, 5] [.leaf [3, 2] 0, .leaf [2, 3, 4] 2] 6] 0
+
+def exKey : List (Sel Int) := [.all, .slice (some 5) (some 6) none, .slice (some 2) (some 3) (some 1)]
+
+example : Level.WF 3 exTree := by
+  simp [exTree, Level.WF, Level.WFList, Level.offset, Level.len, Level.lenList]
+example : SliceKey exKey := by
+  constructor
+  · intro dep
+    match dep with
+    | 0 => rfl
+    | 1 => decide
+    | 2 => decide
+    | n + 3 => rfl
+  · intro dep as h
+    match dep, h with
+    | 0, h => cases h
+    | 1, h => cases h
+    | 2, h => cases h
+    | n + 3, h => cases h
+example : ∀ dep as, exKey.getD dep .all ≠ .list as := by
+  intro dep as h
+  match dep, h with
+  | 0, h => cases h
+  | 1, h => cases h
+  | 2, h => cases h
+  | n + 3, h => cases h
+example : Level.clean exKey exTree 0 = true := by decide
+example : exTree.locToIloc exKey = .ok (.list [1, 2, 3, 4, 5]) := by decide
+example : Level.matchPositions exKey exTree = [1, 2, 3, 4, 5] := by decide
+/-- under 20 the node `[6, 5]` selects its first target for `6:6`; in the leaf `[3, 2]` the slice
+    `3:2` is ascending by position (3 comes before 2 there) -/
+example : exTree.locToIloc [.label 20, .slice (some 6) (some 6) none, .slice (some 3) (some 2) none]
+    = .ok (.list [6, 7]) := by decide
+/-- an endpoint absent from a visited node: under 10 the leaf `[1, 2, 3]` lacks 9 → LocInvalid,
+    although the leaf `[2, 9, 3]` holds it -/
+example : Level.clean [.all, .all, .slice (some 2) (some 9) none] exTree 0 = false := by decide
+example : exTree.locToIloc [.all, .all, .slice (some 2) (some 9) none] = .error .lookup := by decide
+/-- the same slice is clean when only the leaf holding 9 is visited -/
+example : Level.clean [.label 10, .label 6, .slice (some 2) (some 9) none] exTree 0 = true := by decide
+example : exTree.locToIloc [.label 10, .label 6, .slice (some 2) (some 9) none]
+    = .ok (.list [3, 4]) := by decide
 
 end SF.C05
